@@ -145,7 +145,10 @@ type probeResult struct {
 func scionWrap(payload []byte, pathSeed uint64) ([]byte, wire.PathSpec) {
 	ps := wire.PathSpec{Kind: "empty", Seed: pathSeed}
 	dst := scionSrcIA
-	if pathSeed%3 != 0 {
+	if pathSeed%11 == 5 {
+		ps.Kind = "onehop"
+		dst = scionDstIA
+	} else if pathSeed%3 != 0 {
 		ps.Kind = "scion"
 		ps.SegLens = []int{1 + int(pathSeed%5)}
 		ps.ConsDir = []bool{pathSeed%2 == 0}
@@ -226,7 +229,14 @@ func probeSCION(p []byte) probeResult {
 			if ps.Kind != "empty" {
 				wantSrcIA = scionDstIA
 			}
+			_ = wantSrcIA
+			reqPath, _ := ps.SlayersPath()
+			wantRaw, wantType, rerr := wire.ReversePath(reqPath)
+			gotRaw := make([]byte, q.SCION.Path.Len())
+			q.SCION.Path.SerializeTo(gotRaw)
 			switch {
+			case rerr == nil && (q.SCION.PathType != wantType || !bytes.Equal(gotRaw, wantRaw)):
+				res.bad = fmt.Sprintf("reply path (type %d) %x is not the reversed request path (type %d) %x", q.SCION.PathType, gotRaw, wantType, wantRaw)
 			case !from.IP.Equal(dstAddr.IP) || from.Port != dstAddr.Port:
 				res.bad = "reply sent from " + from.String()
 			case q.SCION.DstIA != wantDstIA || q.SCION.SrcIA != wantSrcIA || src.Unmap() != scionSrvIP || dst.Unmap() != netlab.Addr(1):
@@ -377,7 +387,7 @@ var recGrid = ev.New("c09/grid", "enumeration of every first header byte (256: a
 
 func TestExhaustiveGrid(t *testing.T) { gridBody(t, recGrid, lengths) }
 
-var recGridS = ev.New("c09/grid-scion", "the c09/grid enumeration sent to the SCION listener instead: every probe is the UDP payload of a SCION packet (empty path, or 1..2-segment SCION paths of varying length at their last hop) from a harness end host, sent from a 'previous hop' socket; lengths {0,1,47,48,49,52,75,76,77,100,1024,1300}. Same oracle on the unwrapped replies; in addition every reply must come from the listener's socket to the previous hop with ISD-AS, host and ports exchanged. Non-trivial / distinct as for c09/grid")
+var recGridS = ev.New("c09/grid-scion", "the c09/grid enumeration sent to the SCION listener instead: every probe is the UDP payload of a SCION packet (empty path, one-hop path, or 1..2-segment SCION paths of varying length at their last hop) from a harness end host, sent from a 'previous hop' socket; lengths {0,1,47,48,49,52,75,76,77,100,1024,1300}. Same oracle on the unwrapped replies; in addition every reply must come from the listener's socket to the previous hop with ISD-AS, host and ports exchanged and a path whose type and bytes equal an independently computed reversal of the request's. Non-trivial / distinct as for c09/grid")
 
 var lengthsSCION = []int{0, 1, 47, 48, 49, 52, 75, 76, 77, 100, 1024, 1300}
 
